@@ -928,6 +928,73 @@ func largeErrorText(id string, seed uint64) runner.Result {
 	return res
 }
 
+// unknownRPC: the dispatcher's own failure. A name the mux does not have, called in every client shape
+// and order of first steps (unary; stream with a receive first, a send first, a half-close first): the
+// call fails with the dispatcher's message and no code, whatever the client did first, and the
+// connection serves the next call.
+func unknownRPC(id string, seed uint64) runner.Result {
+	r := &payload.SplitMix{S: seed}
+	cfg := prog.GenConfig(r, false)
+	if cfg.Net.Cap == 0 && r.Intn(2) == 0 {
+		cfg.Net.Cap = -1
+	}
+	mux := drpcmux.New()
+	p := &plan{k: 0, resp: []byte("probe-response")}
+	if err := mux.Register(&srv{p: p}, desc{}); err != nil {
+		return runner.Violation(id, "register", "Register failed: "+err.Error())
+	}
+	rg := rig.New(rig.Config{Net: cfg.Net, Client: cfg.Client, Server: cfg.Server}, mux)
+	defer rg.Teardown()
+	shape := payload.Pick(r, []string{"unary", "stream-receive-first", "stream-send-first", "stream-halfclose-first", "stream-send-halfclose-receive"})
+	name := payload.Pick(r, []string{"/svc/Nope", "/other/Unary", "/svc/unary", "/svc/Unary/", "svc/Unary"})
+	desc := fmt.Sprintf("%s | unknown-rpc %q called as %s", cfg.Desc, name, shape)
+	op := rig.Go("call", func() (interface{}, error) {
+		if shape == "unary" {
+			var out Msg
+			return nil, rg.Conn.Invoke(context.Background(), name, enc{}, &Msg{B: []byte("x")}, &out)
+		}
+		st, err := rg.Conn.NewStream(context.Background(), name, enc{})
+		if err != nil {
+			return nil, err
+		}
+		defer st.Close()
+		switch shape {
+		case "stream-send-first":
+			st.MsgSend(&Msg{B: []byte("x")}, enc{})
+		case "stream-halfclose-first":
+			st.CloseSend()
+		case "stream-send-halfclose-receive":
+			st.MsgSend(&Msg{B: []byte("x")}, enc{})
+			st.CloseSend()
+		}
+		var m Msg
+		return nil, st.MsgRecv(&m, enc{})
+	})
+	if !op.Wait() {
+		_, snap := census.Quiesce(rig.Watchdog)
+		return runner.Violation(id, "error-identity:unknown-rpc:call-never-fails", desc+"\nthe call is still blocked with the whole process quiescent\n"+census.Dump(census.InDRPC(snap)))
+	}
+	var fails []string
+	if op.Err == nil || !strings.Contains(op.Err.Error(), "unknown rpc") || !strings.Contains(op.Err.Error(), name) || drpcerr.Code(op.Err) != 0 {
+		fails = append(fails, fmt.Sprintf("the call returned %s (code %d), want the dispatcher's unknown-rpc error naming %q and no code", rig.ErrStr(op.Err), drpcerr.Code(op.Err), name))
+	}
+	if len(fails) == 0 {
+		var out Msg
+		probe := rig.Go("probe", func() (interface{}, error) {
+			return nil, rg.Conn.Invoke(context.Background(), "/svc/Unary", enc{}, &Msg{B: []byte("probe")}, &out)
+		})
+		if !probe.Wait() || probe.Err != nil || string(out.B) != "probe-response" {
+			fails = append(fails, fmt.Sprintf("probe RPC after the call: returned=%v err=%v (connection closed: %v)", probe.Returned(), probe.Err, rig.IsClosed(rg.Conn.Closed())))
+		}
+	}
+	if len(fails) > 0 {
+		return runner.Violation(id, "error-identity:unknown-rpc", desc+"\n"+strings.Join(fails, "\n"))
+	}
+	res := runner.Hold(id, desc, true)
+	res.Events = 2
+	return res
+}
+
 func firstDiff(a, b string) int {
 	for i := 0; i < len(a) && i < len(b); i++ {
 		if a[i] != b[i] {
@@ -954,6 +1021,10 @@ func gen(tier string, seed uint64) []runner.Scenario {
 		if i%25 == 0 {
 			id4 := fmt.Sprintf("shared-sentinel/%d", i)
 			out = append(out, runner.Scenario{ID: id4, Run: func() runner.Result { return sharedSentinel(id4, payload.Hash(seed, 0xC10C, uint64(i))) }})
+		}
+		if i%6 == 0 {
+			id7 := fmt.Sprintf("unknown-rpc/%d", i)
+			out = append(out, runner.Scenario{ID: id7, Run: func() runner.Result { return unknownRPC(id7, payload.Hash(seed, 0xC10F, uint64(i))) }})
 		}
 		if i%12 == 0 {
 			id6 := fmt.Sprintf("large-error-text/%d", i)
